@@ -9,6 +9,7 @@ from . import r_flow as W
 from . import r_more as M
 from . import r_c06 as Z
 from . import r_ptg as G
+from . import r_fmt as Q
 
 
 def part(fn, **kw):
@@ -58,8 +59,8 @@ def registry():
         [W.r_iter, W.r_pos, T.r_tab_de, W.r_hdr, W.r_mapkey])
     R["C10"] = _p(
         "Decides: numeric Data/DataRef variants are built in the three readers only through formats::format_excel_* whose format operand comes from the cell's style lookup and whose date-system operand from the reader flag (R-NUMCTOR); the two built-in id tables agree with each other and with ECMA-376 18.8.30 (R-TAB-FMT); format kind -> DateTime/TimeDelta flavour (R-TAB-FMTKIND); style tables get one entry per xf (R-SST).",
-        "detect_custom_number_format (a string-language scanner)",
-        [W.r_numctor, T.r_tab_fmt, T.r_tab_fmtkind, part(W.r_sst, only=["cellXfs", "XF table"]), W.r_fmtprec, M.r_unesc])
+        "the full number-format grammar (R-FMT-SCAN decides the per-character decision table of the scanner against the clauses the property states, not the language as a whole)",
+        [W.r_numctor, T.r_tab_fmt, T.r_tab_fmtkind, part(W.r_sst, only=["cellXfs", "XF table"]), W.r_fmtprec, M.r_unesc, Q.r_fmt_scan])
     R["C12"] = _p(
         "Decides: after a fragment switch inside a character run the compression flag is re-read and its byte consumed; rich-text runs then extended data are skipped unconditionally in order; Record::skip consumes no flag byte (R-CONT); the SST gets one entry per item (R-SST).",
         "8/16-bit decoding arithmetic (XlsEncoding::decode_to, encoding_rs)",
